@@ -249,3 +249,49 @@ def receiver_field_of(pv, body, t, owner_suffix):
     if adt is None or not adt.endswith(owner_suffix):
         return None
     return o[2]
+
+
+# how each VM container is meant to be used (role), by field / accessor name
+STACK_ROLES = {
+    "value_stack": ("LIFO", ("push", "pop", "last", "last_mut", "len", "is_empty")),
+    "register_stack": ("LIFO", ("push", "pop", "last", "last_mut", "len", "is_empty")),
+    "return_address_stack": ("LIFO", ("push", "pop", "len", "is_empty")),
+    "go_sub_address_stack": ("LIFO", ("push", "pop", "len", "is_empty")),
+    "var_path_stack": ("LIFO", ("push_back", "pop_back", "back", "back_mut", "len", "is_empty")),
+    "by_ref_stack": ("FIFO", ("push_back", "pop_front", "len", "is_empty")),
+    "stacktrace": ("front-stack", ("insert", "remove", "is_empty", "len", "append", "pop", "clone")),
+}
+
+
+def r_stack_discipline(ctx, rule):
+    """Every container of the VM is used at the end its role prescribes, by all of its users."""
+    prog = ctx.prog
+    uses = {k: {} for k in STACK_ROLES}
+    for fn in prog.fns.values():
+        if fn.crate != "rusty_basic" or fn.kind == "const" or "interpreter" not in fn.id:
+            continue
+        pv = mir.Prov(fn.body)
+        for b, t in fn.body.calls():
+            if not t["args"]:
+                continue
+            cp = mir.callee_path(t)
+            if not (cp.startswith("std::vec::Vec") or cp.startswith("std::collections::VecDeque")):
+                continue
+            o = mir.strip_refs(pv.of_operand(t["args"][0]))
+            name = None
+            if o[0] == "field" and o[2] in STACK_ROLES:
+                name = o[2]
+            elif o[0] == "call" and o[1].split("::")[-1] in STACK_ROLES:
+                name = o[1].split("::")[-1]
+            if name is None:
+                continue
+            uses[name].setdefault(cp.split("::")[-1], []).append("%s:%s" % (fn.name, t.get("ln")))
+    for name, (role, allowed) in sorted(STACK_ROLES.items()):
+        if not uses[name]:
+            raise CheckError("no user of VM container %s found" % name)
+        bad = {m: w for m, w in uses[name].items() if m not in allowed}
+        ctx.decide(not bad, rule, "%s:%s" % (rule, name), "rusty_basic/src/interpreter",
+                   "%s: %s" % (role, sorted(uses[name])),
+                   "%s is a %s container but is used with %s: entries are taken from the wrong end when "
+                   "more than one is present" % (name, role, {m: w[0] for m, w in bad.items()}))
+    ctx.require(rule, 7)
